@@ -195,6 +195,9 @@ with exec_carms (cur : option (Z * Z)) (c : Z) (a : carms) (e : menv) {struct a}
 Inductive gres (A : Type) := GOk (a : A) | GFail (e : perr) | GStuck.
 Arguments GOk {A} a. Arguments GFail {A} e. Arguments GStuck {A}.
 
+(* a result of the hand-written model as a result of the interpreter (which is never stuck on it) *)
+Definition lift {A} (r : presult A) : gres A := match r with POk a => GOk a | PErr e => GFail e end.
+
 (* the `for` loop followed by the statements after it; idx = index + position *)
 Fixpoint gloop (P : parser) (e : menv) (idx : Z) (s : str) : gres (str * params) :=
   match s with
@@ -284,7 +287,7 @@ Fixpoint eval_dcond (c : dcond) (prefix media : str) (ord : params) : option boo
                            end
   end.
 
-Definition render (body : list fpiece) (kv : str * str) : str :=
+Definition render_entry (body : list fpiece) (kv : str * str) : str :=
   List.concat (map (fun p => match p with FLit s => s | FArg O => fst kv | FArg _ => snd kv end) body).
 Definition fpiece_ok (p : fpiece) : bool := match p with FLit _ => true | FArg n => Nat.leb n 1 end.
 
@@ -299,7 +302,7 @@ Fixpoint dexec (s : dstmt) (prefix media : str) (ord : params) (sb : str) {struc
                | None => None
                end
   | DFor f body => if String.eqb f "params" && forallb fpiece_ok body
-                   then Some (sb ++ List.concat (map (render body) ord)) else None
+                   then Some (sb ++ List.concat (map (render_entry body) ord)) else None
   | DPop => Some (removelast sb)
   end
 with dexec_block (b : dblock) (prefix media : str) (ord : params) (sb : str) {struct b} : option str :=
